@@ -1126,3 +1126,6 @@ def check(ctx):
 
     r10_accumulators_threaded(ctx)
     r11_lifetime_names_are_fresh(ctx)
+
+
+CLAUSE += '; PartialEq / Eq / Hash of every ADT reachable from Type are the derived ones'
